@@ -158,15 +158,28 @@ func c09JudgeA(c c09ACase) (clause, detail string) {
 	if err != nil {
 		return "client", err.Error()
 	}
+	// what the caller expresses is fixed BEFORE the call; the call must not change the caller's value
 	var want indep.RCardReport
 	if c.Kind == "query" {
-		_, err = cl.QueryAddressBook(context.Background(), c.Path, c.Query)
+		before := js(c.Query)
 		want = rCardQuery(c.Query)
+		wantJS := js(&want)
+		_, err = cl.QueryAddressBook(context.Background(), c.Path, c.Query)
+		if after := js(c.Query); after != before {
+			return "caller-value-modified", fmt.Sprintf("AddressBookQuery before %s after %s", before, after)
+		}
+		if js(&want) != wantJS {
+			return "caller-value-modified", "the reference denotation computed before the call changed (aliased slices)"
+		}
 	} else {
-		_, err = cl.MultiGetAddressBook(context.Background(), c.Path, c.Multi)
-		want = indep.RCardReport{Root: "addressbook-multiget", PropForm: "prop", AddrData: rAddrData(c.Multi.DataRequest), Hrefs: c.Multi.Paths}
+		before := js(c.Multi)
+		want = indep.RCardReport{Root: "addressbook-multiget", PropForm: "prop", AddrData: rAddrData(c.Multi.DataRequest), Hrefs: append([]string(nil), c.Multi.Paths...)}
 		if len(c.Multi.Paths) == 0 {
 			want.Hrefs = []string{c.Path}
+		}
+		_, err = cl.MultiGetAddressBook(context.Background(), c.Path, c.Multi)
+		if after := js(c.Multi); after != before {
+			return "caller-value-modified", fmt.Sprintf("AddressBookMultiGet before %s after %s", before, after)
 		}
 	}
 	if err != nil {
